@@ -56,6 +56,23 @@ pub struct Compiler {
 
     /// Source file path for stack traces (propagated to all nested chunks)
     source_file: Option<String>,
+
+    /// Constructor of a derived class: parameter properties and instance fields are
+    /// initialized right after `super(...)` returns, not at the start of the body.
+    derived_ctor_init: Option<Rc<DerivedCtorInit>>,
+
+    /// Enums declared so far, with the block scope they were declared in: a second
+    /// declaration of the same name in the same scope merges into the first.
+    declared_enums: Vec<(JsString, Option<usize>)>,
+}
+
+/// What a derived-class constructor has to initialize once `super(...)` has returned.
+struct DerivedCtorInit {
+    param_properties: Vec<JsString>,
+    instance_fields: Vec<crate::ast::ClassProperty>,
+    instance_private_fields: Vec<crate::ast::ClassProperty>,
+    instance_private_methods: Vec<crate::ast::ClassMethod>,
+    class_brand: u32,
 }
 
 /// Context for a class being compiled (for private field handling)
@@ -110,6 +127,8 @@ impl Compiler {
             next_class_brand: 0,
             track_completion: false,
             source_file: None,
+            derived_ctor_init: None,
+            declared_enums: Vec::new(),
         }
     }
 
